@@ -9,6 +9,8 @@ ENGINES = [
      "kind_free_text": "scripted in-process executor registered with the real executor registry + harness-owned release schedule; trace oracles"},
     {"name": "storemodel", "path": "harness/chk/c06", "serves_properties": ["C06", "C18", "C20"],
      "kind_free_text": "rapid state machines comparing the real stores / API with in-memory reference models after every step"},
+    {"name": "authgrid", "path": "harness/chk/c17", "serves_properties": ["C17"],
+     "kind_free_text": "header grammar x auth configuration grid through the real middleware chain with httptest"},
     {"name": "graphenum", "path": "harness/chk/c14", "serves_properties": ["C14"],
      "kind_free_text": "small-scope exhaustive digraph enumeration + random graphs with planted cycles; independent DFS oracle"},
 ]
@@ -64,6 +66,12 @@ META = {
         "technique": "model-based (stateful) property testing with rapid: generated operation histories on the real jsondb store compared after every step with an in-memory reference model",
         "level_text": "Generated search over operation histories x hostile DAG names x start-time clusters x payloads; every query answer on every DAG is compared with the model after every operation (cross-DAG isolation is implied).",
         "level_note": "Trusted: the ~150-line reference model; file mtime as the retention clock. No absence claim.",
+    },
+    "C17": {
+        "engine": "authgrid", "design_ref": "DESIGN.md section 3 C17",
+        "technique": "grammar-based grid + property-based testing (rapid) + native fuzzing of the header value, judged by a decision table written from the property (differential against the real middleware chain)",
+        "level_text": "Enumerated header grammar x configuration grid and random/fuzzed headers through the real middleware chain with a sentinel API handler.",
+        "level_note": "Trusted: the decision-table oracle (necessary condition = a header field equals the token or decodes to user:password). The routed swagger handlers themselves are behind the same chain.",
     },
 }
 
